@@ -1,6 +1,8 @@
 // Correspondence harness for quaint_ptr / optional (C18) and env::get / dl (C19).
 #include "common.hpp"
 
+#include <functional>
+
 #include <new>
 
 #include <nitro/dl/dl.hpp>
@@ -19,6 +21,8 @@ static long g_live = 0;
 static std::vector<std::pair<int, int>> g_dead; // (object id, static type of the destructor that ran)
 static bool g_wrong = false;
 
+static std::function<void(int)> g_on_destroy;
+
 template <int Tag>
 struct Payload
 {
@@ -31,6 +35,10 @@ struct Payload
     }
     ~Payload()
     {
+        // an object that tells its owner to let go of it while it is being destroyed (unregistering itself):
+        // by then no owner holds it any more, so this finds nothing to do
+        if (g_on_destroy && magic == 0xC0FFEEu)
+            g_on_destroy(id);
         if (magic != 0xC0FFEEu)
             g_wrong = true; // destroyed twice (or garbage)
         magic = 0;
@@ -76,6 +84,26 @@ static std::string run_quaint(const std::string& ops)
                 return &vec[i - 4];
             return nullptr;
         };
+        int nesting = 0;
+        g_on_destroy = [&](int id) {
+            if (nesting > 0)
+                return;
+            ++nesting;
+            for (std::size_t i = 0; i < 4 + vec.size(); i++)
+            {
+                auto c = cell(i);
+                if (c && c->get() != nullptr && *static_cast<int*>(c->get()) == id)
+                    c->reset();
+            }
+            --nesting;
+        };
+        struct HookOff
+        {
+            ~HookOff()
+            {
+                g_on_destroy = nullptr;
+            }
+        } hook_off; // declared after the owners: switched off before they go out of scope
         if (!ops.empty())
             for (auto& tok : nv::splitc(ops, ';'))
             {
